@@ -144,7 +144,8 @@ class SmtpRelayClient(RelayPoolClient):
     def _handshake(self):
         assert self.client is not None
         if self.tls_immediately:
-            self.client.encrypt(self.context)
+            with Timeout(self.command_timeout):
+                self.client.encrypt(self.context)
             self._banner()
             self._ehlo()
         else:
@@ -209,7 +210,7 @@ class SmtpRelayClient(RelayPoolClient):
         with Timeout(self.data_timeout):
             send_data = self.client.send_data(
                 header_data, message_data)
-        self.client._flush_pipeline()
+            self.client._flush_pipeline()
         if isinstance(send_data, Reply) and send_data.is_error():
             raise SmtpRelayError.factory(send_data)
         return send_data
